@@ -72,7 +72,19 @@ impl ClassSet {
         }
     }
 
-    fn node(self, icase: bool, negate_set: bool) -> ir::Node {
+    fn node(mut self, icase: bool, negate_set: bool) -> ir::Node {
+        // Longest strings first, then single characters, then the empty string.
+        let has_empty = self.alternatives.0.iter().any(|s| s.is_empty());
+        self.alternatives.0.retain(|s| !s.is_empty());
+        let node = self.nonempty_node(icase, negate_set);
+        if has_empty {
+            make_alt(Vec::from([node, ir::Node::Empty]))
+        } else {
+            node
+        }
+    }
+
+    fn nonempty_node(self, icase: bool, negate_set: bool) -> ir::Node {
         let codepoints = if icase {
             unicode::add_icase_code_points(self.codepoints)
         } else {
@@ -1230,18 +1242,13 @@ where
                             match self.peek() {
                                 Some(0x7D /* } */) => {
                                     self.consume('}');
-                                    if !alternative.is_empty() {
-                                        alternatives.push(alternative.into_boxed_slice());
-                                    }
+                                    alternatives.push(alternative.into_boxed_slice());
                                     break;
                                 }
                                 Some(0x7C /* | */) => {
                                     self.consume('|');
-                                    if !alternative.is_empty() {
-                                        let alternative = mem::take(&mut alternative).into_boxed_slice();
-                                        alternatives.push(alternative);
-
-                                    }
+                                    let alternative = mem::take(&mut alternative).into_boxed_slice();
+                                    alternatives.push(alternative);
                                 }
                                 Some(_) => {
                                     alternative.push(self.consume_class_set_character()?);
